@@ -93,7 +93,8 @@ def build_driver():
     with Lock("driver"):
         os.makedirs(EXTRACT, exist_ok=True)
         stamp = os.path.join(EXTRACT, "stamp")
-        deps = [os.path.join(COQ, "theories", "Extract.v"), os.path.join(VERIF, "ocaml", "driver.ml")]
+        deps = [os.path.join(COQ, "theories", "Extract.v"), os.path.join(COQ, "theories", "Digest.v"),
+                os.path.join(VERIF, "ocaml", "driver.ml")]
         for root, _, files in os.walk(os.path.join(COQ, "theories")):
             if any(root.endswith(x) for x in ("Base", "Model", "Spec")):
                 deps += [os.path.join(root, f) for f in files if f.endswith(".v")]
@@ -235,6 +236,102 @@ def audit_sources(files):
                     continue
                 bad.append("%s:%d: %s" % (f, ln, line.strip()))
     return bad
+
+
+def _gallina_bytes(h):
+    bs = b"" if h == "." else bytes.fromhex(h)
+    return "[" + "; ".join(str(b) for b in bs) + "]"
+
+
+def _gallina_cap(c):
+    return "None" if c == "-" else "(Some (N.to_nat %d))" % int(c)
+
+
+def _gallina_ops(ops):
+    out = []
+    for tok in ops.split(","):
+        if not tok:
+            continue
+        if tok[0] == "x":
+            h = tok[1:]
+            out += ["Push %d" % b for b in (b"" if h == "." else bytes.fromhex(h))]
+        else:
+            out.append({"F": "Finalize", "R": "Reset", "N": "FromBuf"}[tok[0]])
+    return "[" + "; ".join(out) + "]"
+
+
+def extraction_crosscheck(pid, lines, k=24, maxlen=700):
+    """Evaluate the digest of the model's result for a slice of the cases (a) with the extracted OCaml program and
+    (b) inside Coq with vm_compute, and compare.  Returns (n_compared, [mismatch descriptions])."""
+    sel = []     # (driver line, gallina term)
+    seen = set()
+    for l in lines:
+        f = l.split(" ")
+        if len(l) > maxlen or l in seen:
+            continue
+        if f[0] == "dec" and len(f) == 3:
+            sel.append(("hdec %s %s" % (f[1], f[2]), "x_dec %s %s" % (_gallina_cap(f[1]), _gallina_ops(f[2]))))
+        elif f[0] == "parse" and len(f) == 2:
+            sel.append(("hparse " + f[1], "x_parse " + _gallina_bytes(f[1])))
+        elif f[0] in ("enci", "encb", "rt") and len(f) == 3:
+            sel.append(("henc " + f[2], "x_enc " + _gallina_bytes(f[2])))
+        elif f[0] == "rd" and len(f) == 5:
+            kind = {"slice": "KSlice", "iter": "KSlice", "io": "KIo", "eh": "KEh"}[f[1]]
+            evs = []
+            for tok in f[3].split(","):
+                if not tok:
+                    continue
+                if tok[0] == "x":
+                    evs += ["SByte %d" % b for b in (b"" if tok[1:] == "." else bytes.fromhex(tok[1:]))]
+                else:
+                    evs.append({"W": "SWouldBlock", "I": "SInterrupted", "O": "SOther", "Z": "SZero"}[tok[0]])
+            calls = []
+            for i in range(len(f[4]) // 2):
+                calls.append("(%s, %s)" % ({"r": "MRead", "n": "MNext", "R": "MReadNb", "N": "MNextNb"}[f[4][2 * i]],
+                                          {"b": "TBytes", "f": "TFile", "p": "TParser"}[f[4][2 * i + 1]]))
+            sel.append(("hrd " + " ".join(f[1:]), "x_rd %s %s [%s] [%s]" % (kind, _gallina_cap(f[2]), "; ".join(evs), "; ".join(calls))))
+        elif f[0] == "abuf" and len(f) == 3:
+            ops = []
+            for tok in f[2].split(","):
+                if not tok:
+                    continue
+                a = tok[1:]
+                if tok[0] == "p":
+                    ops.append("OpPush %d" % bytes.fromhex(a)[0])
+                elif tok[0] == "e":
+                    ops.append("OpExtend " + _gallina_bytes(a if a else "."))
+                elif tok[0] == "t":
+                    ops.append("OpTruncate (N.to_nat %d)" % int(a))
+                else:
+                    ops.append("OpClear")
+            sel.append(("habuf %s %s" % (f[1], f[2]), "x_abuf (N.to_nat %d) [%s]" % (int(f[1]), "; ".join(ops))))
+        else:
+            continue
+        seen.add(l)
+        if len(sel) >= k:
+            break
+    if not sel:
+        return 0, []
+    ocaml = run_lines(driver_bin(), [a for a, _ in sel], shards=1)
+    xd = os.path.join(BUILD, "xcheck")
+    os.makedirs(xd, exist_ok=True)
+    vf = os.path.join(xd, "X_%s.v" % pid)
+    with open(vf, "w") as f:
+        f.write("Require Import Sml.Base.Prelude Sml.Model.Decode Sml.Model.Parser Sml.Model.Reader Sml.Model.ArrayBuf Sml.Digest.\n")
+        f.write("Eval vm_compute in [\n  " + ";\n  ".join(b for _, b in sel) + "\n].\n")
+    with Lock("coq"):
+        rc, out = sh(["timeout", "900", "coqc", "-noglob", "-Q", os.path.join(COQ, "theories"), "Sml", vf], cwd=xd, timeout=1000)
+    if rc != 0:
+        return len(sel), ["coqc failed on the cross-check file: " + out[-400:]]
+    m = re.search(r"=\s*\[(.*?)\]\s*:\s*list N", out, re.S)
+    nums = re.findall(r"\d+", m.group(1)) if m else []
+    bad = []
+    if len(nums) != len(sel):
+        return len(sel), ["could not read %d digests from coqc's output (%d found)" % (len(sel), len(nums))]
+    for (dl, _), a, b in zip(sel, ocaml, nums):
+        if a.strip() != b:
+            bad.append("%s: extracted program %s, vm_compute %s" % (dl[:200], a, b))
+    return len(sel), bad
 
 
 def coqchk_property(pid):
